@@ -480,19 +480,20 @@ func runWorker(ld *loaded, h *harness, stubs map[string]*ssa.Function, tier stri
 	t0 := time.Now()
 	pol := defaultPolicy(ld, stubs)
 	cfg := &sym.Config{
-		Prog:       ld.prog,
-		Entry:      h.fn,
-		InitPkgs:   []*ssa.Package{h.fn.Pkg},
-		Policy:     pol,
-		LoopFuel:   optInt(h, tier, "fuel", 40),
-		SchedBound: optInt(h, tier, "sched", 8),
-		MaxPaths:   optInt(h, tier, "paths", maxPaths),
-		Preemptive: h.opts["preempt"] != "",
-		Trace:      trace,
-		QueryMs:    map[string]int{"quick": 20000, "thorough": 120000}[tier],
-		CrossCheck: []string{"cvc5"},
-		PartIndex:  pi,
-		PartCount:  pc,
+		Prog:            ld.prog,
+		Entry:           h.fn,
+		InitPkgs:        []*ssa.Package{h.fn.Pkg},
+		Policy:          pol,
+		LoopFuel:        optInt(h, tier, "fuel", 40),
+		SchedBound:      optInt(h, tier, "sched", 8),
+		MaxPaths:        optInt(h, tier, "paths", maxPaths),
+		Preemptive:      h.opts["preempt"] != "",
+		PreemptSyncOnly: h.opts["preempt"] == "sync",
+		Trace:           trace,
+		QueryMs:         map[string]int{"quick": 20000, "thorough": 120000}[tier],
+		CrossCheck:      []string{"cvc5"},
+		PartIndex:       pi,
+		PartCount:       pc,
 	}
 	if tier == "thorough" {
 		cfg.CrossCheck = []string{"cvc5", "z3-new"}
@@ -757,7 +758,7 @@ func replayEngine(ld *loaded, h *harness, stubs map[string]*ssa.Function, v *sym
 		sched = []int{}
 	}
 	cfg := &sym.Config{Prog: ld.prog, Entry: h.fn, InitPkgs: []*ssa.Package{h.fn.Pkg}, Policy: pol,
-		LoopFuel: optInt(h, "quick", "fuel", 40), SchedBound: 1 << 20, Preemptive: h.opts["preempt"] != "",
+		LoopFuel: optInt(h, "quick", "fuel", 40), SchedBound: 1 << 20, Preemptive: h.opts["preempt"] != "", PreemptSyncOnly: h.opts["preempt"] == "sync",
 		FixedInputs: fixed, ForcedSched: sched, MaxPaths: 64}
 	if pf := h.opts["preemptfn"]; pf != "" {
 		pol.PreemptFns = map[string]bool{}
